@@ -236,8 +236,13 @@ static void GC_Rem_Ptr(struct GC* gc, var ptr) {
   
   if (gc->nslots is 0) { return; }
   
+  /* deleted by a destructor while it is waiting to be swept */
   for (size_t i = 0; i < gc->freenum; i++) {
-    if (gc->freelist[i] is ptr) { gc->freelist[i] = NULL; }
+    if (gc->freelist[i] is ptr) {
+      gc->freelist[i] = NULL;
+      dealloc(destruct(ptr));
+      return;
+    }
   }
   
   uint64_t i = GC_Hash(ptr) % gc->nslots;
@@ -468,8 +473,10 @@ void GC_Sweep(struct GC* gc) {
   gc->mitems = gc->nitems + gc->nitems / 2 + 1;
   
   for (size_t i = 0; i < gc->freenum; i++) {
-    if (gc->freelist[i]) {
-      dealloc(destruct(gc->freelist[i]));
+    var item = gc->freelist[i];
+    if (item) {
+      gc->freelist[i] = NULL;
+      dealloc(destruct(item));
     }
   }
   
